@@ -46,6 +46,13 @@ const (
 
 var aprWorldSeq int64
 
+// how long after its timeout instant a write may stay without outcome before the wait is given up; shrinks after
+// the first such write
+var aprDeadlineNow = int64(aprDeadline)
+
+// how long a write waits for its callbacks (goroutines) to be invoked; shrinks after the first miss
+var aprPresentBound = int64(2 * time.Second)
+
 // ---------- recording SHIP writer with arrival times
 
 type aprMsg struct {
@@ -381,13 +388,18 @@ func (x *aprRun) expire(wr *aprWrite, inserted bool) bool {
 	op := fmt.Sprintf("expire %d %d", wr.p, wr.c)
 	x.res.executed = append(x.res.executed, op)
 	x.w.step++
-	dead := wr.t0.Add(aprTimeout + aprDeadline)
+	dead := wr.t0.Add(aprTimeout + time.Duration(atomic.LoadInt64(&aprDeadlineNow)))
 	for {
 		x.w.scan()
 		x.w.mu.Lock()
 		seen := wr.timeoutAt != 0 || wr.resolved()
 		x.w.mu.Unlock()
-		if seen || time.Now().After(dead) {
+		if seen {
+			break
+		}
+		if time.Now().After(dead) {
+			// a write without any outcome: reported by the monitor (no-outcome); do not wait that long again
+			atomic.StoreInt64(&aprDeadlineNow, int64(300*time.Millisecond))
 			break
 		}
 		if rem := time.Until(wr.t0.Add(aprTimeout)); rem > 2*time.Millisecond {
@@ -478,11 +490,17 @@ func (x *aprRun) exec(op string) bool {
 		wr.t0 = time.Now()
 		w.inject(p, model.DatagramType{Header: hd, Payload: model.PayloadType{Cmd: []model.CmdType{{DeviceClassificationUserData: &model.DeviceClassificationUserDataType{UserLabel: util.Ptr(model.LabelType(wr.label()))}}}}})
 		// the callbacks are goroutines: wait (bounded) until each has been invoked
-		for t0 := time.Now(); time.Since(t0) < 2*time.Second; {
+		bound := time.Duration(atomic.LoadInt64(&aprPresentBound))
+		for t0 := time.Now(); ; {
 			w.mu.Lock()
 			k := len(wr.presented)
 			w.mu.Unlock()
 			if k >= w.nCb {
+				break
+			}
+			if time.Since(t0) > bound {
+				// a callback was not invoked: reported by the monitor; do not wait that long again
+				atomic.StoreInt64(&aprPresentBound, int64(30*time.Millisecond))
 				break
 			}
 			time.Sleep(50 * time.Microsecond)
@@ -642,6 +660,25 @@ func (x *aprRun) exec(op string) bool {
 			return true
 		}
 		return x.expire(wr, false)
+	case "settle":
+		// "exactly one outcome" can only be judged once every write's timeout instant has passed: a write resolved by
+		// a verdict must not receive the timeout's result on top. (Automatic at the end of a history, not recorded.)
+		for _, wr := range append([]*aprWrite{}, w.order...) {
+			w.mu.Lock()
+			told := wr.expired
+			w.mu.Unlock()
+			if told {
+				continue
+			}
+			if rem := time.Until(wr.t0.Add(aprTimeout + 25*time.Millisecond)); rem > 0 {
+				time.Sleep(rem)
+			}
+			w.step++
+			if !x.compare("settle", "settle", x.observe(wr), fmt.Sprintf("expire %d %d", wr.p, wr.c)) {
+				return false
+			}
+		}
+		return true
 	case "expireall":
 		for _, wr := range append([]*aprWrite{}, w.order...) {
 			w.mu.Lock()
@@ -701,10 +738,13 @@ func (x *aprRun) spec() {
 		// what the statement demands, from this write's own verdicts and its own timeout only
 		expected, approvals := "terr", map[int]bool{}
 		interleaved := false
-		race := ""
+		raceT, raceV := 0, 0
 		for _, v := range wr.verdicts {
-			if v.raceWith != "" {
-				race = v.raceWith
+			switch v.raceWith {
+			case "timeout":
+				raceT++
+			case "verdict":
+				raceV++
 			}
 			if expected != "terr" || !v.effective {
 				continue
@@ -759,10 +799,12 @@ func (x *aprRun) spec() {
 		case applied+errs == 0:
 			res.fail("C12/no-outcome", what)
 		case applied+errs > 1:
+			// every surplus outcome is explained by a verdict that had looked the write up in time and committed
+			// after the write was resolved: the race defect, named after what the verdict raced with
 			switch {
-			case race == "timeout" && applied+errs == 2 && strings.Contains(got, "terr"):
+			case raceT > 0 && applied+errs-1 <= raceT+raceV && strings.Contains(got, "terr"):
 				res.fail(aprKeyRaceT, what)
-			case race == "verdict" && applied+errs == 2:
+			case raceV > 0 && applied+errs-1 <= raceT+raceV:
 				res.fail(aprKeyRaceV, what)
 			default:
 				res.fail("C12/two-outcomes", what)
@@ -790,12 +832,13 @@ func (x *aprRun) spec() {
 		if wr.early {
 			res.fail("C12/timeout-early", what+fmt.Sprintf("; the timeout result was written %v after the write was injected (timeout %v)", wr.timeoutAt, aprTimeout))
 		}
-		switch {
-		case applied > 0:
+		// generator statistics come from what the statement demands, not from what the code did
+		switch expected {
+		case "applied":
 			res.applied++
-		case strings.Contains(got, "derr"):
+		case "derr":
 			res.denied++
-		case got == "terr":
+		default:
 			res.timedOut++
 		}
 	}
@@ -849,12 +892,22 @@ func runAprHistory(d *h.Driver, ops []string) *aprResult {
 	if d != nil {
 		d.Ask(fmt.Sprintf("reset %d", nCb))
 	}
+	// after a mismatch the rest of the history still runs, without the model, so that the SPEC monitor judges the
+	// complete history; an abandoned history ends at once
 	ok := true
+	run := func(op string) bool {
+		if x.exec(op) {
+			return true
+		}
+		ok = false
+		x.d = nil
+		return res.abandoned == ""
+	}
 	for _, op := range ops[1:] {
 		if strings.HasPrefix(op, "cfg") {
 			continue
 		}
-		if ok = x.exec(op); !ok {
+		if !run(op) {
 			break
 		}
 	}
@@ -865,14 +918,17 @@ func runAprHistory(d *h.Driver, ops []string) *aprResult {
 	}
 	sort.Ints(ids)
 	for _, id := range ids {
-		if ok {
-			ok = x.exec(fmt.Sprintf("commit %d", id))
+		if res.abandoned == "" {
+			run(fmt.Sprintf("commit %d", id))
 		} else {
 			x.looks[id].task.Finish(3 * time.Second)
 		}
 	}
-	if ok {
-		ok = x.exec("expireall")
+	if res.abandoned == "" {
+		run("expireall")
+	}
+	if res.abandoned == "" {
+		run("settle")
 	} else {
 		time.Sleep(aprTimeout + 20*time.Millisecond)
 	}
@@ -1023,6 +1079,34 @@ func aprEnumerate(nCb, nW int, onlyApprove bool) [][]string {
 	return out
 }
 
+// aprInterleavings: one or two writes; every verdict is a look/commit pair, every write has its timeout; all
+// interleavings of the pairs and the timeouts (thorough tier). vals: bit i = verdict of slot i approves.
+func aprInterleavings(nCb, nW int, vals int) [][]string {
+	var seqs [][]string
+	id := 0
+	for wi := 0; wi < nW; wi++ {
+		for cb := 0; cb < nCb; cb++ {
+			id++
+			a := vals >> (id - 1) & 1
+			seqs = append(seqs, []string{fmt.Sprintf("look %d 0 %d %d %d", id, 11+wi, cb, a), fmt.Sprintf("commit %d", id)})
+		}
+	}
+	var exp []string
+	for wi := 0; wi < nW; wi++ {
+		exp = append(exp, fmt.Sprintf("expire 0 %d", 11+wi)) // timers fire in arrival order
+	}
+	seqs = append(seqs, exp)
+	var out [][]string
+	hbtMerges(seqs, func(m []string) {
+		ops := []string{fmt.Sprintf("cfg %d 1", nCb)}
+		for wi := 0; wi < nW; wi++ {
+			ops = append(ops, fmt.Sprintf("write 0 %d %d", 11+wi, (vals+wi)%2))
+		}
+		out = append(out, append(ops, m...))
+	})
+	return out
+}
+
 // ---------- corpus: one deterministic witness per known defect, then basic shapes
 
 var (
@@ -1056,6 +1140,7 @@ func aprCorpus() [][]string {
 func TestApproval(t *testing.T) {
 	r := h.NewReport("approval", "histories of 1..3 approval callbacks x 1..3 concurrently pending writes from 1..2 peers (real write datagrams on bound connections), per write and callback a verdict from {approve, deny, silent} delivered in time, overlapping (two verdicts past the pending lookup), after the timeout, or looked up before and committed after the timeout (goroutines parked at the yield point; real 100 ms timers); each step compared with the member of Spine.Appr selected by the probe phase, and each write judged by the SPEC monitor (presented once per callback; applied(+ack) iff all approved in time; else exactly one error result, data unchanged); non-trivial = distinct histories (by op text) that agreed to the end")
 	defer r.Write()
+	defer hbtGuard(r, "C12")()
 	defer hbtWatchdog("TestApproval", time.Duration(h.Scale(6, 25))*time.Minute)()
 	h.InstallYield()
 
@@ -1171,6 +1256,17 @@ func TestApproval(t *testing.T) {
 		all = append(all, aprEnumerate(2, 2, false)...)
 		all = append(all, aprEnumerate(3, 2, true)...)
 		all = append(all, aprEnumerate(2, 3, true)...)
+		// all interleavings of look / commit pairs with the timeouts
+		for v := 0; v < 2; v++ {
+			all = append(all, aprInterleavings(1, 1, v)...)
+		}
+		for v := 0; v < 4; v++ {
+			all = append(all, aprInterleavings(2, 1, v)...)
+			all = append(all, aprInterleavings(1, 2, v)...)
+		}
+		for _, v := range []int{7, 6, 5, 3} {
+			all = append(all, aprInterleavings(3, 1, v)...)
+		}
 		for i, ops := range all {
 			lists[i%workers] = append(lists[i%workers], ops)
 		}
